@@ -220,8 +220,8 @@ func (g *g16) eval(e ast.Expr) *gNode {
 			}
 		}
 		// a helper of the example package itself whose body is `return <constructor expression>`: expand it
-		if fd := g.funcs[f]; fd != nil && g.depth < 8 && fd.Body != nil && len(fd.Body.List) == 1 {
-			if rs, ok := fd.Body.List[0].(*ast.ReturnStmt); ok && len(rs.Results) == 1 {
+		if fd := g.funcs[f]; fd != nil && g.depth < 8 && fd.Body != nil && len(fd.Body.List) >= 1 && g.straightLine(fd) {
+			if rs, ok := fd.Body.List[len(fd.Body.List)-1].(*ast.ReturnStmt); ok && len(rs.Results) == 1 {
 				frame := map[types.Object]ast.Expr{}
 				i := 0
 				for _, fld := range fd.Type.Params.List {
@@ -235,6 +235,23 @@ func (g *g16) eval(e ast.Expr) *gNode {
 				// arguments are evaluated in the caller's environment: wrap them lazily by pushing the frame
 				g.env = append(g.env, frame)
 				g.depth++
+				// local definitions preceding the return
+				for _, st := range fd.Body.List[:len(fd.Body.List)-1] {
+					if as, ok := st.(*ast.AssignStmt); ok {
+						for i, l := range as.Lhs {
+							id, ok := l.(*ast.Ident)
+							if !ok || i >= len(as.Rhs) {
+								continue
+							}
+							o := g.info.Defs[id]
+							if o == nil {
+								o = g.info.Uses[id]
+							}
+							g.names[id.Name] = o
+							g.vars[o] = g.eval(as.Rhs[i])
+						}
+					}
+				}
 				n := g.eval(rs.Results[0])
 				g.depth--
 				g.env = g.env[:len(g.env)-1]
@@ -753,4 +770,29 @@ func (c *Ctx) boundMethod(mc *ssa.MakeClosure) (*ssa.Function, func(int) ssa.Val
 		}
 		return v
 	}
+}
+
+// straightLine: the helper's body is a list of simple assignments followed by one return.
+func (g *g16) straightLine(fd *ast.FuncDecl) bool {
+	for i, st := range fd.Body.List {
+		last := i == len(fd.Body.List)-1
+		switch x := st.(type) {
+		case *ast.AssignStmt:
+			if last {
+				return false
+			}
+			for _, l := range x.Lhs {
+				if _, ok := l.(*ast.Ident); !ok {
+					return false
+				}
+			}
+		case *ast.ReturnStmt:
+			if !last {
+				return false
+			}
+		default:
+			return false
+		}
+	}
+	return true
 }
